@@ -146,7 +146,7 @@ def run_case(ck, paths, idx):
 def run(ck, tier):
     paths = build("asan")
     sc = getattr(ck, "scale", 1.0)
-    n = int((150 if tier == "quick" else 4000) * sc)
+    n = int((300 if tier == "quick" else 4000) * sc)
     common.pmap(lambda i: run_case(ck, paths, i), range(n), workers=12)
     ck.rule = ("nucleotide inputs over ACGT/ACGU/ACGTU/ACGTN (+ <= 4% IUPAC codes) and protein inputs (+ B/Z/X) re-spelled by random per-residue case flips "
                "(rates 0.01..1), whole-sequence lower case, case tied to the letter (e.g. only A/C/G/T/N upper case) and random T<->U substitutions; 30% of the pairs go through kalign() on arrays; pair evaluated when kalign detects the same kind for both spellings; "
